@@ -171,6 +171,11 @@ PROPS = {
             {"id": "hardfork", "func": "VerifHardfork", "pkg": PEG, "pkgname": "pegnet", "load": ["./node/pegnet"],
              "params": {"quick": {"smax": 5, "nforks": 2}, "thorough": {"smax": 7, "nforks": 2}},
              "must_cover": ["refused", "accepted"], "max_witness_replays": 8},
+            # the same miniature histories with every start of a build going through NewPegnetd's own body
+            # (with or without --no-hf for intermediate starts): what the start-up path does around the check
+            {"id": "start-hardfork", "func": "VerifStartHardfork", "pkg": NODE, "pkgname": "node", "load": ["./node"],
+             "params": {"quick": {"smax": 3, "nforks": 2}, "thorough": {"smax": 5, "nforks": 2}},
+             "must_cover": ["refused", "accepted", "real-start-up-code"], "max_witness_replays": 4},
         ],
         "bounds": {"quick": "miniature chain: synced height S<=5, legacy prefix L<=S, one symbolic build version (0..4) per tracked height, 2 forks with symbolic height (1..5) and minimum version (-1..4), current version 0..4, optional intermediate restarts; states built through the real InsertSynced/commit",
                    "thorough": "S<=7"},
@@ -301,6 +306,9 @@ PROPS = {
             {"id": "obj-decode", "func": "VerifObjDecode", "pkg": "fat/fat2", "pkgname": "fat2", "load": ["./fat/fat2"],
              "params": {"quick": {"maxmembers": 4}, "thorough": {"maxmembers": 5}},
              "must_cover": ["canonical", "not-canonical"], "max_witness_replays": 8},
+            # round trip where the encoder is generic and the decoder hand-written: output tuple, any amount incl. 0
+            {"id": "tuple-roundtrip", "func": "VerifTupleRoundTrip", "pkg": "fat/fat2", "pkgname": "fat2", "load": ["./fat/fat2"],
+             "params": {"quick": {}, "thorough": {}}, "must_cover": ["output-tuple"], "max_witness_replays": 2},
             # "known tickers": canonical spelling of 6 asset names (incl. the first and the last of the enumeration) and 8 near misses each
             {"id": "ticker-decode", "func": "VerifTickerDecode", "pkg": "fat/fat2", "pkgname": "fat2", "load": ["./fat/fat2"],
              "params": {"quick": {}, "thorough": {}}, "must_cover": ["canonical-name", "near-miss"], "max_witness_replays": 4},
